@@ -22,6 +22,16 @@ well-formed value (`Value.wt`: well-formed type without optional-attribute
 annotations, payload of that type) and a well-formed target type without
 DynamicPseudoType.  Targets with placeholders need laws of `unify` that belong to
 C09; what is known to fail there is kept as `def … : Prop` + counterexample.
+
+Second deepening (d08b) — statements that need NO `RegularPair` (any target, placeholders included):
+* marks: `convert_commutes_with_unmarkDeep` (+ `_failures`, `_converse`, `conversion_…`): conversion
+  commutes with `UnmarkDeep` for every value with well-formed marker layers; `deep_marks_kept_partial`:
+  no mark is lost at any depth by the element-wise conversions (`DeepMarksKept` is false by design);
+* the frontier of the recorded findings: `empty_collection_resolves_direct_placeholder`,
+  `unknown_null_resolve_placeholders_partial` (unknown and null inputs DO resolve placeholders),
+  `result_resolves_placeholders_unknown_length_counterexample`, `idempotent_counterexample`,
+  `conforming_converts_to_itself_counterexample` / `_partial`, `idempotent_spelled_out_partial`;
+* unknown sets: `unknown_set_to_set_lower_bound` (+ `_needed`); round trip `roundtrip_set_list_set_partial`.
 -/
 import CtyModel.Lemmas.ConvertUnknown
 import CtyModel.Lemmas.ConvertTotal
@@ -306,6 +316,26 @@ theorem idempotent_spelled_out_partial (E : Env) (hU : UnifyLaws E) (fuel fuel' 
     (hg : (getConv E r.ty want true).isSome = true ∨ r.ty.equals want.stripOpt = true) :
     convert E fuel' r want = .ok r ∨ convert E fuel' r want = .unmodelled :=
   conforming_converts_to_itself_partial E hU fuel' r.ty want r.v hw hd ho hs hg
+
+/-- … and `ResultResolvesPlaceholders` on that fragment: a spelled-out (in particular NON-EMPTY at every
+level) list / map nest resolves every placeholder of the target, nested ones included — the result is
+the value itself, whose type has none. -/
+theorem result_resolves_placeholders_spelled_out_partial (E : Env) (hU : UnifyLaws E) (fuel : Nat)
+    (inT want : Ty) (p : Payload) (r : Value) (hw : wf inT = true) (hd : hasDyn inT = false)
+    (ho : hasOpt inT = false) (hs : D08B.solidFor want inT p = true)
+    (h : convert E fuel ⟨inT, p⟩ want = .ok r) : r = ⟨inT, p⟩ ∧ resolvedIn inT r.ty = true := by
+  have hg : (getConv E inT want true).isSome = true ∨ inT.equals want.stripOpt = true := by
+    unfold convert convertWith at h
+    split at h
+    · exact .inr ‹_›
+    · split at h
+      · simp at h
+      · rename_i q hq; exact .inl (by simp [hq])
+  rcases conforming_converts_to_itself_partial E hU fuel inT want p hw hd ho hs hg with h1 | h1
+  · rw [h1] at h
+    simp at h; subst h
+    exact ⟨rfl, resolvedIn_noDyn _ _ hd⟩
+  · rw [h1] at h; simp at h
 
 /-- the hypotheses are satisfiable by a nested value and a nested placeholder; the witness of the
 counterexample fails exactly `solidFor` (its first member is an empty list) -/
